@@ -54,10 +54,11 @@ def concretize(prop_id, abstract):
     build_model()
     work = os.path.join(WORK, prop_id)
     os.makedirs(work, exist_ok=True)
-    ap = os.path.join(work, "abstract.txt")
+    ap = os.path.join(work, "abstract.%d.txt" % os.getpid())    # concurrent checks must not collide
     open(ap, "w").write("\n".join(abstract) + "\n")
     p = subprocess.run(["bash", "-c", "ulimit -s unlimited; exec %s --concretize %s" % (os.path.join(OCAML, "driver"), ap)],
                        stdout=subprocess.PIPE, stderr=subprocess.PIPE, text=True)
+    os.remove(ap)
     if p.returncode != 0:
         raise BuildError("concretize failed: " + p.stderr[-1000:])
     out, cur = {}, []
